@@ -8,6 +8,7 @@ pub mod c08;
 pub mod c09;
 pub mod c10;
 pub mod c11;
+pub mod c12;
 pub mod c14;
 pub mod c15;
 pub mod c16;
@@ -49,6 +50,7 @@ const TABLE: &[Entry] = &[
     entry!("C09", "model_checking", 50, 1500, c09),
     entry!("C10", "exploration", 50, 1500, c10),
     entry!("C11", "exploration", 50, 1500, c11),
+    entry!("C12", "fault_enumeration", 50, 600, c12),
     entry!("C14", "exploration", 50, 1500, c14),
     entry!("C15", "exploration", 50, 900, c15),
     entry!("C16", "model_checking", 50, 1500, c16),
